@@ -39,11 +39,12 @@ def in_range_cond(vars_, lo, hi):
     return X.cond_and(*[X.cond_and(X.cond_rel(">=", v - lo), X.cond_rel("<=", v - hi)) for v in vars_])
 
 
-def explore(chk, name, nvars, call, lo, hi, budget, record):
+def explore(chk, name, nvars, call, lo, hi, budget, record, dom=None):
     """Explore `call(*vars)` over DOM^nvars.  `record(vals, obj)` is evaluated inside accepting paths."""
     ctx = new_context()
     ctx.concretise_enabled = True
-    vs = [ctx.var("x%d" % i, domain=DOM) for i in range(nvars)]
+    dom = list(dom) if dom is not None else DOM
+    vs = [ctx.var("x%d" % i, domain=dom) for i in range(nvars)]
 
     def fn():
         try:
@@ -99,7 +100,7 @@ def explore(chk, name, nvars, call, lo, hi, budget, record):
                    "unsat" if len(ok) == expect else "sat", seconds=round(dt, 2), kind="exploration",
                    logic="QF_LRA(finite domain)",
                    detail=dict(solver_calls=ex.solver_calls, solver_seconds=round(ex.solver_seconds, 2),
-                               domain="%d..%d per index" % (DOM[0], DOM[-1])))
+                               domain="%d..%d per index" % (dom[0], dom[-1])))
     if len(ok) != expect:
         missing = [t for t in itertools.product(range(lo, hi + 1), repeat=nvars) if t not in ok]
         for t in missing[:3]:
@@ -301,6 +302,20 @@ def main():
         if not good:
             badv = [v for v, r in okv.items() if r["obj"] != V2S[v[0]] or r["voigt"] != v[0]][0]
             fail(chk, "voigt-table", "E_.from_voigt(%d) = %s" % (badv[0], okv[badv]["obj"]), dict(args=list(badv)))
+
+    # ---- string spellings: every digit string of length 2 (Voigt pair) and 4 (standard tuple), each digit a finite-domain symbol ----
+    def rec_s(vals, a):
+        return dict(obj=(tuple(int(x) for x in a.standard), tuple(int(x) for x in a.voigt)))
+    digits2 = list(range(0, 10))
+    digits4 = list(range(0, 5)) if tier == "quick" else list(range(0, 10))
+    ok_s2 = explore(chk, "c_(2-digit string)", 2, lambda a, b: c_("%d%d" % (int(a), int(b))), 1, 6, 400, rec_s, dom=digits2)
+    ok_s4 = explore(chk, "c_(4-digit string)", 4, lambda a, b, c, d: c_("%d%d%d%d" % (int(a), int(b), int(c), int(d))), 1, 3, 12000, rec_s, dom=digits4)
+    for ok_s, ref, nm, top in ((ok_s2, lambda t: c_(*t), "2-digit", 6), (ok_s4, lambda t: c_(*t), "4-digit", 3)):
+        if ok_s:
+            badk = [t for t, r in ok_s.items() if all(1 <= x <= top for x in t) and r["obj"] != (tuple(ref(t).standard), tuple(ref(t).voigt))]
+            chk.obligation("C_:%s string spelling == the index spelling [%d accepted]" % (nm, len(ok_s)), "unsat" if not badk else "sat", kind="tally")
+            if badk:
+                fail(chk, "string-spelling", "c_('%s') differs from c_%s" % ("".join(map(str, badk[0])), badk[0]), dict(args=list(badk[0])))
 
     # ---- integer / string type twin: the one-argument spellings given as numpy integers / numpy strings ------------------------------
     import numpy
